@@ -14,6 +14,7 @@ import (
 	"os"
 	"sync"
 	"sync/atomic"
+	"syscall"
 	"testing"
 	"time"
 
@@ -35,6 +36,98 @@ type c03Action struct {
 	Kind int `json:"kind"` // see c03Kinds
 	A    int `json:"a"`
 	B    int `json:"b"`
+	// Reg (flip actions): 0 = the coarse region A%6 selects (type / reserved / session id / counter / whole body / tag);
+	// 1.. = a fine region, see c03FlipRange (the body is cut into blocks of the width of the AEAD's permutation)
+	Reg int `json:"reg,omitempty"`
+}
+
+// c03Fault disturbs the SENDING side of one endpoint (the network itself stays faithful).
+type c03Fault struct {
+	End int `json:"end"` // 0: the client, 1: the server (its Handle of the first session)
+	// Kind 0: the socket refuses exactly the K-th transport datagram the endpoint sends (ENOBUFS, transient);
+	// 1: it refuses the K-th and every later one; 2: the endpoint's own connection is closed (Client.Close / Handle.Close)
+	// while its K-th transport datagram is inside the socket; 3: as 2, closing the whole Server (server end only).
+	Kind int `json:"kind"`
+	K    int `json:"k"`
+	// Wait (kinds 2, 3): the datagram stays inside the socket until Close returned, at most Wait virtual microseconds
+	// (0: it does not wait at all - Close and the Write race)
+	Wait int `json:"wait,omitempty"`
+}
+
+var c03FaultKinds = []string{"socket-refuses-kth-datagram", "socket-refuses-from-kth-datagram-on", "own-close-during-kth-datagram", "server-close-during-kth-datagram"}
+
+// c03Block: width in bytes of the permutation the AEAD (Kravatte-SANSE) absorbs its input with.
+const c03Block = 200
+
+// c03FlipRange returns the byte range [lo, hi) of a datagram of L bytes in which a flip action flips one bit.
+// Layout of a transport datagram: 16 header bytes (type, 3 reserved, session id, counter), body (= the message
+// as written: the AEAD plaintext is exactly the bytes of one WriteMsg / one packet of a Write), 32 tag bytes.
+func c03FlipRange(reg, a, L int) (lo, hi int) {
+	bodyLo, bodyHi := AssociatedDataLen, L-TagLen
+	if bodyHi < bodyLo {
+		bodyHi = bodyLo
+	}
+	clampLo := func(x int) int {
+		if x < bodyLo {
+			return bodyLo
+		}
+		return x
+	}
+	clampHi := func(x int) int {
+		if x > bodyHi {
+			return bodyHi
+		}
+		return x
+	}
+	switch reg {
+	case 0:
+		switch a % 6 {
+		case 0:
+			lo, hi = 0, 1
+		case 1:
+			lo, hi = 1, 4
+		case 2:
+			lo, hi = 4, 8
+		case 3:
+			lo, hi = 8, 16
+		case 4:
+			lo, hi = 16, L-TagLen
+		default:
+			lo, hi = L-TagLen, L
+		}
+	case 1: // the last block-width of the body
+		lo, hi = clampLo(bodyHi-c03Block), bodyHi
+	case 2: // the first block-width of the body
+		lo, hi = bodyLo, clampHi(bodyLo+c03Block)
+	case 3: // anywhere in the datagram
+		lo, hi = 0, L
+	case 4: // the last byte of the body
+		lo, hi = clampLo(bodyHi-1), bodyHi
+	case 5: // the first byte of the body
+		lo, hi = bodyLo, clampHi(bodyLo+1)
+	case 6: // the (a mod n)-th block-width of the body counted from its END (blocks aligned to the end)
+		n := (bodyHi - bodyLo + c03Block - 1) / c03Block
+		if n > 0 {
+			j := a % n
+			lo, hi = clampLo(bodyHi-(j+1)*c03Block), bodyHi-j*c03Block
+		}
+	default: // the (a mod n)-th block-width of the body counted from its START (blocks aligned as the AEAD absorbs them)
+		n := (bodyHi - bodyLo + c03Block - 1) / c03Block
+		if n > 0 {
+			j := a % n
+			lo, hi = bodyLo+j*c03Block, clampHi(bodyLo+(j+1)*c03Block)
+		}
+	}
+	if hi > L {
+		hi = L
+	}
+	if lo < 0 {
+		lo = 0
+	}
+	if hi <= lo {
+		lo, hi = 0, 1
+	}
+	return lo, hi
 }
 
 var c03Kinds = []string{"drop", "duplicate", "hold", "flip-copy", "truncate-copy", "extend-copy", "reflect-copy", "cross-session-copy", "forged", "flip-in-flight", "late-duplicate"}
@@ -52,6 +145,9 @@ type c03Case struct {
 	Yields []int `json:"yields,omitempty"`
 	// NoGap: the writers issue their calls back to back (default: one virtual millisecond between two calls of a writer)
 	NoGap bool `json:"noGap,omitempty"`
+	// Faults: at most one per endpoint; an endpoint with a fault has a single writer (its calls are sequential, so the
+	// datagrams the socket accepted between the start and the return of a call are the datagrams of that call)
+	Faults []c03Fault `json:"faults,omitempty"`
 }
 
 const c03YieldPoint = "transport.Handle.send.enter"
@@ -165,6 +261,7 @@ func c03Scenario(c c03Case, v *vlib.Verdict) {
 		dir     int
 	}
 	var held []heldT
+	var flipAlignedLast, flipLast atomic.Bool // (classification only)
 	sid1 := cli.ss.sessionID
 	env.Net.Filter = func(d simnet.Datagram) []simnet.Datagram {
 		if len(d.Data) == 0 || (d.Data[0] != byte(MessageTypeTransport) && d.Data[0] != byte(MessageTypeControl)) {
@@ -223,30 +320,17 @@ func c03Scenario(c c03Case, v *vlib.Verdict) {
 				amu.Unlock()
 			case 3, 9:
 				x := clone()
-				L := len(x.Data)
-				var lo, hi int
-				switch a.A % 6 {
-				case 0:
-					lo, hi = 0, 1
-				case 1:
-					lo, hi = 1, 4
-				case 2:
-					lo, hi = 4, 8
-				case 3:
-					lo, hi = 8, 16
-				case 4:
-					lo, hi = 16, L-TagLen
-				default:
-					lo, hi = L-TagLen, L
-				}
-				if hi > L {
-					hi = L
-				}
-				if hi <= lo {
-					lo, hi = 0, 1
-				}
+				lo, hi := c03FlipRange(a.Reg, a.A, len(x.Data))
 				bit := a.B % (8 * (hi - lo))
 				x.Data[lo+bit/8] ^= 1 << (bit % 8)
+				if body, at := len(x.Data)-AssociatedDataLen-TagLen, lo+bit/8; body > 0 && at >= AssociatedDataLen && at < AssociatedDataLen+body {
+					switch {
+					case body%c03Block == 0 && body >= 2*c03Block && at >= AssociatedDataLen+body-c03Block:
+						flipAlignedLast.Store(true)
+					case at >= AssociatedDataLen+body-c03Block:
+						flipLast.Store(true)
+					}
+				}
 				if a.Kind == 9 {
 					deliverOrig = false
 					post = append(post, x)
@@ -311,6 +395,93 @@ func c03Scenario(c c03Case, v *vlib.Verdict) {
 		out = append(out, post...)
 		return out
 	}
+	// ---- faults on the sending side of an endpoint (the write gate of its socket sees every datagram before the socket
+	// accepts it; the send log of the network holds exactly the datagrams a socket accepted)
+	var faultOf [2]*c03Fault
+	var faultFired [2]atomic.Bool
+	for i := range c.Faults {
+		f := c.Faults[i]
+		if f.End < 0 || f.End > 1 || faultOf[f.End] != nil {
+			v.Discard = true
+			return
+		}
+		faultOf[f.End] = &f
+		sock := cliSock
+		if f.End == 1 {
+			sock = env.SrvSock
+		}
+		closeFn := func() { cli.Close() }
+		if f.End == 1 {
+			closeFn = func() { h.Close() }
+			if f.Kind == 3 {
+				closeFn = func() { env.Srv.Close() }
+			}
+		}
+		refused := &net.OpError{Op: "write", Net: "udp", Err: syscall.ENOBUFS}
+		var seen atomic.Int64
+		end := f.End
+		sock.SetWriteGate(func(b []byte, dst *net.UDPAddr, closed <-chan struct{}) {
+			if len(b) == 0 || b[0] != byte(MessageTypeTransport) {
+				return
+			}
+			k := int(seen.Add(1) - 1)
+			switch f.Kind {
+			case 0:
+				if k == f.K {
+					faultFired[end].Store(true)
+					sock.FailWrites(refused)
+				} else {
+					sock.FailWrites(nil)
+				}
+			case 1:
+				if k >= f.K {
+					faultFired[end].Store(true)
+					sock.FailWrites(refused)
+				}
+			default:
+				if k == f.K {
+					faultFired[end].Store(true)
+					done := make(chan struct{})
+					go func() { closeFn(); close(done) }()
+					if f.Wait > 0 {
+						tm := time.NewTimer(time.Duration(f.Wait) * time.Microsecond)
+						select {
+						case <-done:
+						case <-tm.C:
+						}
+						tm.Stop()
+					}
+				}
+			}
+		})
+		defer sock.SetWriteGate(nil)
+		defer sock.FailWrites(nil)
+	}
+	faulty := len(c.Faults) > 0
+	if faulty && (len(c.CliW) > 1 || len(c.SrvW) > 1 || c.Two || len(c.Script) > 0) {
+		v.Discard = true // (the generator never produces this: attribution of datagrams to calls needs sequential calls)
+		return
+	}
+	endAddr := func(e int) (src, dst *net.UDPAddr) {
+		if e == 0 {
+			return vCliAddr, vSrvAddr
+		}
+		return vSrvAddr, vCliAddr
+	}
+	// sentBytes: number of transport datagrams endpoint e's socket accepted since position from of the send log, and the
+	// payload bytes they carry
+	sentBytes := func(e, from int) (n, nb int) {
+		src, dst := endAddr(e)
+		log := env.Net.SentSnapshot()
+		for _, d := range log[from:] {
+			if len(d.Data) >= AssociatedDataLen+TagLen && d.Data[0] == byte(MessageTypeTransport) && simnetEq(d.Src, src) && simnetEq(d.Dst, dst) {
+				n++
+				nb += len(d.Data) - AssociatedDataLen - TagLen
+			}
+		}
+		return n, nb
+	}
+	sentLen := func() int { return len(env.Net.SentSnapshot()) }
 	// ---- yield schedule of the writers
 	if len(c.Yields) > 0 {
 		var hits atomic.Int64
@@ -337,11 +508,15 @@ func c03Scenario(c c03Case, v *vlib.Verdict) {
 		writer int
 		writes []c03Write
 		bufs   [][]byte
+		ns     []int // what each call reported (Write: the count; -1: call not made)
 	}
 	var plans []*plan
 	add := func(from, to *c03End, dir int, ws [][]c03Write) {
 		for wi, lst := range ws {
-			p := &plan{from: from, to: to, dir: dir, writer: wi, writes: lst}
+			p := &plan{from: from, to: to, dir: dir, writer: wi, writes: lst, ns: make([]int, len(lst))}
+			for i := range p.ns {
+				p.ns[i] = -1
+			}
 			for si, wr := range lst {
 				b := c03Payload(dir, wi, si, wr)
 				p.bufs = append(p.bufs, b)
@@ -431,7 +606,47 @@ func c03Scenario(c c03Case, v *vlib.Verdict) {
 			defer wwg.Done()
 			for si, wr := range p.writes {
 				b := p.bufs[si]
-				if wr.Msg {
+				if faulty {
+					// One writer per end: the transport datagrams this end's socket accepted between the start and the return
+					// of the call are the datagrams of this call - the ground truth for "the number of bytes it sent".
+					e := p.dir
+					opName := []string{"Client", "Handle"}[e]
+					disturbed := faultOf[e] != nil // a refused datagram or a Close ends the session: later calls may fail
+					from := sentLen()
+					if wr.Msg {
+						err := p.from.conn.WriteMsg(b)
+						nd, nb := sentBytes(e, from)
+						switch {
+						case len(b) > MaxPlaintextSize:
+							// (on a connection that was closed meanwhile the refusal may name that instead of the size)
+							if (!disturbed && !errors.Is(err, ErrBufOverflow)) || err == nil || nd != 0 {
+								r.fail("C03:oversize-writemsg-not-refused", "%s: WriteMsg of %d bytes (> MaxPlaintextSize %d) returned %v, %d datagrams sent", p.from.name, len(b), MaxPlaintextSize, err, nd)
+							}
+						case err == nil && (nd != 1 || nb != len(b)):
+							// documented: "A successful return means the configured UDPLike transport accepted it"
+							r.fail("C03:writemsg-succeeds-without-sending:"+opName+".WriteMsg", "%s: WriteMsg of %d bytes returned nil, but the socket accepted %d transport datagrams carrying %d bytes for it", p.from.name, len(b), nd, nb)
+						case err != nil && !disturbed:
+							r.fail("C03:write-fails-on-open-session", "%s: WriteMsg of %d bytes returned %v", p.from.name, len(b), err)
+						}
+						if err == nil {
+							p.ns[si] = len(b)
+						} else {
+							p.ns[si] = 0
+						}
+					} else {
+						n, err := p.from.conn.Write(b)
+						nd, nb := sentBytes(e, from)
+						p.ns[si] = n
+						switch {
+						case n != nb:
+							r.fail("C03:write-count-differs-from-bytes-sent:"+opName+".Write", "%s: Write of %d bytes returned (%d, %v), but the socket accepted %d transport datagrams carrying %d payload bytes for this call (fault at this end: %v)", p.from.name, len(b), n, err, nd, nb, disturbed)
+						case err == nil && n != len(b):
+							r.fail("C03:write-reports-wrong-count", "%s: Write of %d bytes returned (%d, %v)", p.from.name, len(b), n, err)
+						case err != nil && !disturbed:
+							r.fail("C03:write-reports-wrong-count", "%s: Write of %d bytes returned (%d, %v) on an open session", p.from.name, len(b), n, err)
+						}
+					}
+				} else if wr.Msg {
 					err := p.from.conn.WriteMsg(b)
 					if len(b) > MaxPlaintextSize {
 						if !errors.Is(err, ErrBufOverflow) {
@@ -489,16 +704,54 @@ func c03Scenario(c c03Case, v *vlib.Verdict) {
 		}
 		r.fail("C03:session-disturbed:probe-not-delivered", "after the adversarial traffic a fresh probe message to the %s did not arrive (reader closed early: %v)", to.name, to.closedEarly)
 	}
-	if v.OK() {
+	// (a refused datagram or a Close legitimately ends the session: no probes when the sending side was disturbed)
+	if v.OK() && !faulty {
 		probe(cli, srvEnd, 1)
 	}
-	if v.OK() {
+	if v.OK() && !faulty {
 		probe(h, cliEnd, 2)
 	}
 	close(stopRead)
 	rwg.Wait()
+	// ---- (3') interrupted writes on a faithful network: every byte a call REPORTED as sent reached the reader of an
+	// undisturbed peer - the packets of buf[:n] for a Write that returned n, the whole message for a WriteMsg that
+	// returned nil (a caller that follows io.Writer resumes from buf[n:]; those n bytes must not be lost)
+	if v.OK() && faulty {
+		for _, p := range plans {
+			peer := 1 - p.dir
+			if faultOf[peer] != nil {
+				continue // the reader's own connection was closed / its session ended: it is not obliged to drain
+			}
+			have := map[string]int{}
+			p.to.mu.Lock()
+			for _, m := range p.to.got {
+				have[string(m)]++
+			}
+			p.to.mu.Unlock()
+			for si, wr := range p.writes {
+				n := p.ns[si]
+				if n <= 0 || n > len(p.bufs[si]) {
+					continue
+				}
+				for ci, ch := range c03Chunks(wr, p.bufs[si][:n]) {
+					if have[string(ch)] > 0 {
+						have[string(ch)]--
+						continue
+					}
+					v.Failf("C03:reported-bytes-not-delivered", "%s: call %d (%d bytes, WriteMsg=%v) reported %d bytes as sent, but packet %d of those bytes never reached the undisturbed reader on a faithful network", p.from.name, si, len(p.bufs[si]), wr.Msg, n, ci)
+					break
+				}
+				if !v.OK() {
+					break
+				}
+			}
+			if !v.OK() {
+				break
+			}
+		}
+	}
 	// ---- (3) completeness when every original datagram was delivered at least once
-	if v.OK() && !destructive {
+	if v.OK() && !destructive && !faulty {
 		for _, e := range []*c03End{srvEnd, cliEnd} {
 			missing := 0
 			var which []string
@@ -582,7 +835,7 @@ func c03Scenario(c c03Case, v *vlib.Verdict) {
 			}
 		}
 	}
-	v.NonTrivial = len(c.Script) > 0 || big
+	v.NonTrivial = len(c.Script) > 0 || big || faulty
 	if big {
 		v.Label("write-larger-than-one-packet")
 	}
@@ -598,6 +851,32 @@ func c03Scenario(c c03Case, v *vlib.Verdict) {
 	}
 	if c.Two {
 		v.Label("two-sessions")
+	}
+	for _, f := range c.Faults {
+		lab := "fault:" + c03FaultKinds[f.Kind%len(c03FaultKinds)] + ":" + []string{"client", "server"}[f.End]
+		v.Label(lab)
+		if faultFired[f.End].Load() {
+			v.Label("fault-fired:" + []string{"client", "server"}[f.End])
+		}
+	}
+	for _, p := range plans {
+		for si, n := range p.ns {
+			if faulty && !p.writes[si].Msg && n > 0 && n < len(p.bufs[si]) {
+				v.Label("write-interrupted-in-the-middle:" + []string{"Client.Write", "Handle.Write"}[p.dir])
+			}
+		}
+	}
+	if flipAlignedLast.Load() {
+		v.Label("flip-in-last-block-of-a-message-of-whole-blocks")
+	}
+	if flipLast.Load() {
+		v.Label("flip-in-last-block-of-a-message")
+	}
+	for _, a := range c.Script {
+		if (a.Kind == 3 || a.Kind == 9) && a.Reg > 0 {
+			v.Label("flip-in-fine-region")
+			break
+		}
 	}
 	if len(c.CliW) > 1 || len(c.SrvW) > 1 {
 		v.Label("concurrent-writers")
@@ -671,16 +950,137 @@ func c03Run(t *testing.T) func(c c03Case, v *vlib.Verdict) {
 // (rapid favours the front of a SampledFrom list: small, empty and multi-packet sizes alternate)
 var c03Sizes = []int{c03Hdr, 0, MaxPlaintextSize + 1, 100, 2 * MaxPlaintextSize, 1, MaxPlaintextSize, 1000, 2*MaxPlaintextSize + 1, c03Hdr + 1, MaxPlaintextSize - 1, c03Hdr - 1, 3*MaxPlaintextSize + MaxPlaintextSize/2}
 
+// c03BoundarySize draws a message size at or next to a multiple of a block width: k*B-1, k*B, k*B+1 for every k up to a
+// few thousand bytes and for the last multiples below MaxPlaintextSize. B is mostly the 200-byte width of the
+// permutation behind the AEAD (the message as written IS the AEAD plaintext: the 16 header bytes are associated data,
+// absorbed separately), sometimes another common block / lane width. With base > 0 (a Write of several packets) the
+// LAST packet of the call has such a size.
+func c03BoundarySize(t *rapid.T, allowMulti bool) (size int, multi bool) {
+	B := rapid.SampledFrom([]int{c03Block, c03Block, c03Block, c03Block, c03Block, 8, 16, 32, 64, 136, 168}).Draw(t, "blockWidth")
+	top := MaxPlaintextSize / B
+	k := rapid.OneOf(rapid.IntRange(1, 4200/B), rapid.IntRange(2, 6), rapid.SampledFrom([]int{top, top - 1, top / 2})).Draw(t, "blocks")
+	d := rapid.SampledFrom([]int{0, 0, -1, 1}).Draw(t, "delta")
+	size = k*B + d
+	if allowMulti && rapid.IntRange(0, 5).Draw(t, "multiPacket") == 0 {
+		size += rapid.SampledFrom([]int{1, 1, 2}).Draw(t, "fullPackets") * MaxPlaintextSize
+		multi = true
+	}
+	if size < 0 {
+		size = 0
+	}
+	return size, multi
+}
+
+// c03Datagrams: the number of transport datagrams a correct endpoint sends for the calls of one writer.
+func c03Datagrams(ws []c03Write) int {
+	n := 0
+	for _, w := range ws {
+		switch {
+		case w.Msg && w.Size > MaxPlaintextSize:
+		case w.Msg || w.Size <= MaxPlaintextSize:
+			n++
+		default:
+			n += (w.Size + MaxPlaintextSize - 1) / MaxPlaintextSize
+		}
+	}
+	return n
+}
+
+// c03GenBoundary: messages whose sizes sit at block boundaries of the AEAD, and flips that draw their position from fine
+// regions of exactly those datagrams (last / first / j-th block of the body, last byte, anywhere).
+func c03GenBoundary(t *rapid.T, c c03Case) c03Case {
+	c.Yields, c.NoGap = nil, false
+	side := func(label string) [][]c03Write {
+		return [][]c03Write{rapid.SliceOfN(rapid.Custom(func(t *rapid.T) c03Write {
+			w := c03Write{Seed: rapid.Uint64().Draw(t, "seed"), Msg: rapid.Bool().Draw(t, "msg")}
+			var multi bool
+			w.Size, multi = c03BoundarySize(t, true)
+			if multi {
+				w.Msg = false
+			}
+			return w
+		}), 1, 4).Draw(t, label+"writes")}
+	}
+	c.CliW, c.SrvW = side("cli"), side("srv")
+	nd := [2]int{c03Datagrams(c.CliW[0]), c03Datagrams(c.SrvW[0])}
+	c.Script = rapid.SliceOfN(rapid.Custom(func(t *rapid.T) c03Action {
+		a := c03Action{Dir: rapid.IntRange(0, 1).Draw(t, "dir")}
+		n := nd[a.Dir]
+		if n < 1 {
+			n = 1
+		}
+		a.Idx = rapid.IntRange(0, n-1).Draw(t, "idx")
+		a.Kind = rapid.SampledFrom([]int{9, 3, 9, 3, 9, 3, 1, 5, 4}).Draw(t, "kind")
+		a.Reg = rapid.SampledFrom([]int{1, 6, 7, 1, 2, 3, 4, 5, 0}).Draw(t, "region")
+		a.A = rapid.OneOf(rapid.IntRange(0, 400), rapid.IntRange(0, 70000)).Draw(t, "a")
+		a.B = rapid.IntRange(0, 1<<20).Draw(t, "b")
+		return a
+	}), 1, 6).Draw(t, "script")
+	return c
+}
+
+// c03GenInterrupted: one writer per end on a faithful network; the sending side of one or both endpoints is disturbed
+// while (mostly) a Write of several packets is in progress.
+func c03GenInterrupted(t *rapid.T, c c03Case) c03Case {
+	c.Two, c.Yields, c.Script = false, nil, nil
+	c.NoGap = rapid.Bool().Draw(t, "noGap")
+	side := func(label string) [][]c03Write {
+		return [][]c03Write{rapid.SliceOfN(rapid.Custom(func(t *rapid.T) c03Write {
+			w := c03Write{Seed: rapid.Uint64().Draw(t, "seed")}
+			w.Size = rapid.SampledFrom([]int{3 * MaxPlaintextSize, 2*MaxPlaintextSize + 1, 2 * MaxPlaintextSize, 3*MaxPlaintextSize + MaxPlaintextSize/2, 100, MaxPlaintextSize + 1,
+				4*MaxPlaintextSize + c03Block, MaxPlaintextSize, 0, 5 * MaxPlaintextSize}).Draw(t, "size")
+			// mostly Write: WriteMsg is a single packet and refuses the larger sizes
+			w.Msg = rapid.IntRange(0, 4).Draw(t, "msg") == 0
+			return w
+		}), 1, 3).Draw(t, label+"writes")}
+	}
+	c.CliW, c.SrvW = side("cli"), side("srv")
+	nd := [2]int{c03Datagrams(c.CliW[0]), c03Datagrams(c.SrvW[0])}
+	fault := func(end int) c03Fault {
+		f := c03Fault{End: end}
+		kinds := []int{0, 2, 1, 0, 2}
+		if end == 1 {
+			kinds = []int{0, 2, 3, 1, 0, 2}
+		}
+		f.Kind = rapid.SampledFrom(kinds).Draw(t, "faultKind")
+		// mostly a datagram in the middle of the traffic of that end, sometimes the first, the last or one never sent
+		f.K = rapid.IntRange(0, nd[end]).Draw(t, "k")
+		if f.Kind >= 2 {
+			f.Wait = rapid.SampledFrom([]int{10000, 0, 1, 100, 10000}).Draw(t, "wait")
+		}
+		return f
+	}
+	switch rapid.SampledFrom([]int{0, 1, 0, 1, 2}).Draw(t, "faultyEnds") {
+	case 0:
+		c.Faults = []c03Fault{fault(0)}
+	case 1:
+		c.Faults = []c03Fault{fault(1)}
+	default:
+		c.Faults = []c03Fault{fault(0), fault(1)}
+	}
+	return c
+}
+
 func c03Gen(t *rapid.T) c03Case {
 	c := c03Case{Hidden: rapid.Bool().Draw(t, "hidden"), Two: rapid.Bool().Draw(t, "two")}
 	c.Fam = rapid.SampledFrom([]int{0, 0, 0, 1, 2}).Draw(t, "fam")
+	// families of cases: 0 the general one (below), 1 block-boundary sizes with finely placed flips, 2 interrupted writes
+	switch rapid.SampledFrom([]int{0, 0, 0, 0, 0, 0, 1, 2}).Draw(t, "family") {
+	case 1:
+		return c03GenBoundary(t, c)
+	case 2:
+		return c03GenInterrupted(t, c)
+	}
 	writers := func(label string) [][]c03Write {
 		n := rapid.SampledFrom([]int{1, 1, 1, 2, 3}).Draw(t, label+"n")
 		out := make([][]c03Write, n)
 		for i := range out {
 			out[i] = rapid.SliceOfN(rapid.Custom(func(t *rapid.T) c03Write {
 				w := c03Write{Seed: rapid.Uint64().Draw(t, "seed")}
-				w.Size = rapid.OneOf(rapid.SampledFrom(c03Sizes), rapid.IntRange(c03Hdr, 3000)).Draw(t, "size")
+				w.Size = rapid.OneOf(rapid.SampledFrom(c03Sizes), rapid.IntRange(c03Hdr, 3000), rapid.Custom(func(t *rapid.T) int {
+					sz, _ := c03BoundarySize(t, false)
+					return sz
+				})).Draw(t, "size")
 				// Concurrent writers use Write as well as WriteMsg. A Write of at most MaxPlaintextSize bytes is one packet;
 				// a larger one is split into packets that may interleave with those of other writers, which the oracle
 				// allows: it compares the multiset of packets-worth of bytes ("every byte accepted ... is delivered"),
@@ -740,6 +1140,10 @@ func c03Gen(t *rapid.T) c03Case {
 			a.Kind = rapid.IntRange(0, len(c03Kinds)-1).Draw(t, "kind")
 			a.A = rapid.OneOf(rapid.IntRange(0, 70000), rapid.SampledFrom([]int{0, 1, 2, 3, 4, 5, 7, 8, 15, 16, 47, 48, 49, 447, 448, 449, 600})).Draw(t, "a")
 			a.B = rapid.IntRange(0, 1<<20).Draw(t, "b")
+			if a.Kind == 3 || a.Kind == 9 {
+				// where the flipped bit lies: a coarse region (0) or a fine one (see c03FlipRange)
+				a.Reg = rapid.SampledFrom([]int{0, 0, 1, 3, 6, 7, 2, 4, 5}).Draw(t, "region")
+			}
 			return a
 		}), 1, 10).Draw(t, "script")
 	}
@@ -747,5 +1151,5 @@ func c03Gen(t *rapid.T) c03Case {
 }
 
 func TestVerifC03Channel(t *testing.T) {
-	vlib.Drive(t, vlib.Spec[c03Case]{ID: "C03", Quick: 4000, Gen: c03Gen, Run: c03Run(t)})
+	vlib.Drive(t, vlib.Spec[c03Case]{ID: "C03", Quick: 6000, Gen: c03Gen, Run: c03Run(t)})
 }
